@@ -171,7 +171,7 @@ def rand_spec(rng, quick):
     x0 = None if rng.random() < 0.4 else [round(rng.uniform(lo, hi), 3) for lo, hi in nb]
     return dict(x0_rev=rng.random() < 0.5, problem=problem, n=n, t=rng.choice([0.25, 0.5, 1.0]), true=true, bounds=nb, x0=x0, loss=loss,
                 scale=rng.choice([1.0, 1.0, 10.0]) if loss == 'poisson' else 1.0,
-                n_runs=rng.choice([1, 2, 2, 3, 3, 4]), seed=rng.randint(0, 10 ** 6), cache=rng.random() < 0.6,
+                n_runs=rng.choice([1, 2, 2, 3, 3, 4]), seed=rng.choice([0, 0, 1, rng.randint(0, 10 ** 6), rng.randint(0, 10 ** 6), rng.randint(0, 10 ** 6)]), cache=rng.random() < 0.6,
                 maxiter=rng.randint(2, 6 if quick else 8))
 
 
@@ -279,6 +279,12 @@ def g_run(R, P, spec):
     e0d, e0f = d.demography.get_epoch(0), f.demography.get_epoch(0)
     R.check(dict(e0d.pop_sizes) == dict(e0f.pop_sizes) and dict(e0d.migration_rates) == dict(e0f.migration_rates),
             'run:dist-demography', nt, expected=str(e0f), observed=str(e0d))
+    # the seed that was given is the seed that is used (0 is a seed like any other): a second object with the same seed draws the
+    # same start point
+    if spec['x0'] is None:
+        twin = P.inference()
+        R.check(dict(twin.x0) == dict(P.inference().x0) and twin.seed == spec['seed'], 'run:seed-used', True, expected=spec['seed'],
+                observed=dict(seed=twin.seed, x0=[dict(twin.x0), dict(P.inference().x0)]))
     R.check(inf.result is not None and [float(v) for v in inf.result.x] == list(p.values()) and float(inf.result.fun) == float(inf.loss_inferred),
             'run:result-object', nt, expected=p, observed=None if inf.result is None else [float(v) for v in inf.result.x])
     # start values: given ones are used, sampled ones lie in the box
